@@ -112,9 +112,14 @@ def run(cs, tier, run_index):
     if meta["prob_kind"] == "components":
         res.probe("disconnected_question_graph")
 
+    # `tol` only governs the validation of the distribution: whatever admissible value is given, the values of a
+    # valid game are the same.  Loose tolerances are part of the configuration space.
+    tol_value = [1e-9, 1e-6, 1e-3, 0.05][cfg.draw(4)] if tol_given else None
+    meta["tol"] = tol_value
+
     def build():
         p, f = prob.copy(), pred.copy()
-        return (X.XORGame(p, f, reps, 1e-9) if tol_given else X.XORGame(p, f, reps)), (p, f)
+        return (X.XORGame(p, f, reps, tol_value) if tol_given else X.XORGame(p, f, reps)), (p, f)
 
     try:
         game, caller = build()
@@ -125,7 +130,8 @@ def run(cs, tier, run_index):
     interloper = None
     if cfg.draw(3) == 2 or run_index % 8 == 7:
         p2, f2, _, _ = draw_game(cs.s("game:2"), like=meta)
-        interloper = X.XORGame(p2, f2, reps)
+        tol2 = [None, 1e-9, 1e-3, 0.05][cs.s("game:2").draw(4)]
+        interloper = X.XORGame(p2, f2, reps) if tol2 is None else X.XORGame(p2, f2, reps, tol2)
         res.probe("two_objects_same_shape")
 
     if cfg.draw(4) == 3:
@@ -134,7 +140,7 @@ def run(cs, tier, run_index):
         import gc
 
         pe, fe, _, _ = draw_game(cs.s("game:e"), like=meta)
-        tmp = X.XORGame(pe, fe, reps)
+        tmp = X.XORGame(pe, fe, reps, [1e-9, 0.05][cs.s("game:e").draw(2)])
         call_value(op_fn(tmp, "quantum"), res, "quantum(ephemeral object)")
         del tmp, pe, fe
         gc.collect()
